@@ -137,7 +137,7 @@ fn observe(ci: usize, case: &Value, out: &Mutex<Vec<Finding>>, edited: &Mutex<Ve
 
 pub fn run(rep: &'static Report) {
     let thorough = is_thorough();
-    let k = if thorough { 4 } else { 2 };
+    let k = if thorough { 4 } else { 3 };
     let cases = generate("gen_c17.py", k, &[]);
     let findings: Mutex<Vec<Finding>> = Mutex::new(Vec::new());
     let edited: Mutex<Vec<Edited>> = Mutex::new(Vec::new());
